@@ -16,8 +16,9 @@ LEVEL = "model_checking"
 
 def run(ctx):
     quick = ctx.tier == "quick"
-    ctx.cov["rule"] = ("one pair of searches per generated position without a root promotion; non-trivial = "
-                       "(pair, depth) combinations compared (every depth both searches completed).")
+    ctx.cov["rule"] = ("one pair of searches per generated position without a root promotion; one evaluation per (pair, depth) "
+                       "compared (every depth both searches completed); non-trivial and distinct = pairs (distinct positions, each "
+                       "searched with its mirror and compared on at least the first completed depth).")
     # design level: the engine's alpha-beta returns the exact minimax value at the root for every leaf assignment of
     # small trees (spec/AlphaBeta.tla over the proved score order) - the fact that makes the committed score of a
     # pass a function of the position, hence comparable between a position and its mirror
@@ -122,8 +123,8 @@ def run(ctx):
         os.remove(tr)
     ctx.cov["states"] += res["distinct"]
     ctx.cov["transitions"] += res["generated"]
-    ctx.cov["evaluations"] += 2 * pairs
-    ctx.cov["distinct_nontrivial"] += depths
+    ctx.cov["evaluations"] += depths
+    ctx.cov["distinct_nontrivial"] += pairs
     ctx.cov["traces_validated_against_impl"] += 2 * pairs
     ctx.cov["steps"].append({"step": "mirror pairs", "generated": n, "pairs_searched": pairs, "depths_compared": depths, "events_validated": total})
     ctx.assumptions += ASSUME + ["both searches of a pair get the same number of polls; the comparison covers the depths both completed"]
